@@ -416,7 +416,15 @@ def run(req, rep):
         intervals, iterations = int(rng.choice([1, 2, 5])), int(rng.choice([1, 3]))
         ep_iter = int(rng.choice([1, 4, 12]))
         desc = {"sim": i, "individuals": n_ind, "transforms": applied}
-        reference = unrescaled_reference(ts, mu_used, ep_iter, ExpectationPropagation)
+        try:
+            reference = unrescaled_reference(ts, mu_used, ep_iter, ExpectationPropagation)
+        except Exception as e:  # noqa: BLE001
+            # the EP fit BEFORE the rescaling step failed (e.g. `assert penalty > 0` in propagate_prior, a recorded
+            # finding of C05/C35): the step C23 speaks about is never reached on this input -- skipped and counted
+            rep.skipped_before_rescaling = getattr(rep, "skipped_before_rescaling", 0) + 1
+            rep.notes.append(f"input sim{i} skipped: the EP fit before rescaling raised {type(e).__name__} "
+                             f"(mutation-rate factor {mu_used / mu:.3g}); C23 is about the rescaling step")
+            continue
         for seg in (False, True):
             setting = (seg, intervals, iterations, ep_iter, i % 4 == 3)
             evaluate(rep, f"sim{i}/segsites-{seg}", desc, ts, mu_used, setting, ExpectationPropagation, tsdate.date,
